@@ -27,6 +27,7 @@ func main() {
 		"time":         engtime.Run,
 		"node":         engnode.Run,
 		"net":          engnode.RunNet,
+		"ticker":       engnode.RunTicker,
 		"reshare":      engnode.RunReshare,
 		"reshareapply": engnode.RunReshareApply,
 		"serve":        engnode.RunServe,
